@@ -33,7 +33,8 @@ def main():
         })
     m = {
         "version": 1,
-        "setup_cmd": "cd lean && lake build",
+        "setup_cmd": "cd lean && lake build " + " ".join(
+            "BacVerif.Props.%s BacVerif.Audit.%s drv_%s" % (p, p, p.lower()) for p in sorted(CLAIMED)),
         "hooks": {
             "guard": "JOELBENDER_BACPYPES_VERIF",
             "enable": "no source hooks are needed: the harness imports /repo/py34 directly, installs a virtual "
